@@ -644,6 +644,11 @@ func genTTL(seed uint64, run int) *Case {
 		}
 		cs.Threads = append(cs.Threads, tp)
 	}
+	if fr := NewRng(seed, uint64(run), 89); fr.Chance(0.3) {
+		// fault: a snapshot whose destination fails, taken beside the cleanup; afterwards rows
+		// must go on expiring (own PRNG stream)
+		cs.Threads = append(cs.Threads, ThreadProg{Role: "failsnap", Arg: fr.Intn(4)})
+	}
 	cs.Threads = append(cs.Threads, ThreadProg{Role: "clock", Arg: r.Range(4, 14)})
 	return cs
 }
